@@ -44,9 +44,12 @@ def cond_val(tok):
     return np.array({1: [1.0, 2.0, 0.5], 2: [0.0, -1.0, 3.0]}[tok])
 
 
+MESHSWITCH = [False]
+
+
 def target(tok, dim, cpos_all):
     """Target points: a few free points plus every conditioning location of both tokens."""
-    shift = 1.5 if tok == 3 else 0.0      # token 3: token 1 moved by 1.5 (allclose to it under the BIG offset)
+    shift = 1.5 if tok == 3 and not MESHSWITCH[0] else 0.0      # token 3: token 1 moved by 1.5 (allclose to it under the BIG offset)
     tok = 1 if tok == 3 else tok
     free = {1: [0.5, 1.5, 4.0, 40.0], 2: [0.25, 2.75, 7.0, 60.0]}[tok]
     xs = [v + OFF[0] + shift for v in free] + [v + shift for cp in cpos_all for v in cp[0]]
@@ -107,6 +110,13 @@ class Real:
             self._buf[...] = arr
         return self._buf
 
+    def mesh_kw(self, tok):
+        """meshswitch variant: position token 3 is the coordinate tuple of token 1 read as the axes of a
+        structured grid (a position token of the spec = coordinate tuple AND mesh type)."""
+        if "meshswitch" not in self.opts:
+            return {}
+        return {"mesh_type": "structured" if tok == 3 else "unstructured"}
+
     def apply(self, op, cpos_all):
         c, n = self.c, op["name"]
         if n == "Call":
@@ -114,10 +124,10 @@ class Real:
             if op["s"] != KEEP:
                 kw["seed"] = SEEDS[op["s"]]
             if op["p"] != KEEP:
-                return c(self.positions(op["p"], cpos_all), **kw)
+                return c(self.positions(op["p"], cpos_all), **kw, **self.mesh_kw(op["p"]))
             return c(**kw)
         if n == "SetPos":
-            c.set_pos(self.positions(op["p"], cpos_all))
+            c.set_pos(self.positions(op["p"], cpos_all), **self.mesh_kw(op["p"]))
         elif n == "SetCondition":
             if op["form"] == "none":
                 c.krige.set_condition()
@@ -148,7 +158,7 @@ class Real:
             else:
                 c.trend = MEAN[op["v"]]
         elif n == "KrigeCall":
-            c.krige(self.positions(op["p"], cpos_all))
+            c.krige(self.positions(op["p"], cpos_all), **self.mesh_kw(op["p"]))
         elif n == "DeleteFields":
             c.delete_fields()
         else:
@@ -173,6 +183,7 @@ def replay(col, gs, variant, dim, beh, origin, nugget=0.0, big=False, opts=()):
     buffer_mode = big == "buffer"
     big = big is True
     OFF[0] = BIG if big else 0.0
+    MESHSWITCH[0] = "meshswitch" in opts
     st0 = beh[0]
     cpos_all = [cond_pos(1, dim), cond_pos(2, dim)]
     r = Real(gs, variant, dim, st0["cfg"], st0["seed"], nugget, opts)
@@ -183,18 +194,31 @@ def replay(col, gs, variant, dim, beh, origin, nugget=0.0, big=False, opts=()):
     for st in beh[1:]:
         op = st["op"]
         hist.append(op)
-        out = r.apply(op, cpos_all)
+        rp = {"variant": vtag, "dim": dim, "init": {"cfg": st0["cfg"], "seed": st0["seed"]}, "ops": list(hist), "origin": origin}
+        raised = None
+        try:
+            out = r.apply(op, cpos_all)
+        except Exception as e:  # noqa: BLE001 - the library refused an operation the specification enables
+            raised = e
+        if raised is not None and not (op["name"] == "Call" and op["compare"]):
+            col.drift.append("CondSRF(%s, dim %d): %s raised %s: %s after %s" % (vtag, dim, op["name"], type(raised).__name__, raised,
+                                                                                 [tlaval.to_tla(o) for o in hist[-4:-1]]))
+            return ncmp
         if op["name"] != "Call" or not op["compare"]:
             continue
         ncmp += 1
         cfg, seed, ptok = op["cfg"], op["seed"], op["pos"]
-        rp = {"variant": vtag, "dim": dim, "init": {"cfg": st0["cfg"], "seed": st0["seed"]}, "ops": list(hist), "origin": origin}
         sig = "%s:%s" % (vtag, since_last_compare(hist))
-        f = np.array(out)
         # (1) the property's own oracle: a freshly built object
         fresh = Real(gs, variant, dim, cfg, seed, nugget, opts)
         pos = target(ptok, dim, cpos_all)
-        ff = np.array(fresh.c(pos))
+        ff = np.array(fresh.c(pos, **fresh.mesh_kw(ptok)))
+        if raised is not None:     # the fresh object returned a field for the same configuration, positions and seed
+            col.violation("raised:%s" % sig,
+                          "CondSRF(%s, dim %d): the call after %s raised %s (%s) where a freshly built object returns a field"
+                          % (vtag, dim, [tlaval.to_tla(o) for o in hist[-4:]], type(raised).__name__, raised), rp)
+            return ncmp
+        f = np.array(out)
         pairs = []
         if op.get("st", True):      # stored fields are only compared when this call was asked to store them
             pairs.append(("raw_krige", np.array(r.c["raw_krige"]), np.array(fresh.c["raw_krige"])))
@@ -210,6 +234,8 @@ def replay(col, gs, variant, dim, beh, origin, nugget=0.0, big=False, opts=()):
                               % (vtag, dim, name, [tlaval.to_tla(o) for o in hist[-4:]],
                                  float(np.max(np.abs(a - b))) if a.shape == b.shape else float("nan")), rp)
                 return ncmp
+        if "meshswitch" in opts:      # the remaining oracles are written for point lists
+            continue
         # (2) independent assembly (evaluated on the fresh object, whose noise stream position is known):
         #     mean + krige + sqrt(max(kvar - nugget, 0)/var) * unconditional field + scaled nugget noise
         k = fresh.krige(cfg)
@@ -269,6 +295,7 @@ def mc_text(name, clear=True, size="mc", own="both"):
 class _Collect:
     def __init__(self):
         self.violations = []
+        self.drift = []
 
     def violation(self, key, what, replay):
         if not any(k == key for k, _w, _r in self.violations):
@@ -291,7 +318,11 @@ def _work(job):
         if not out["samples"] and origin == "simulate" and n:
             out["samples"].append({"variant": variant, "dim": dim, "ops": [tlaval.to_tla(s["op"]) for s in sts[1:]][:10]})
     out["violations"] = col.violations
+    out["drift"] = col.drift[:3]
     return out
+
+
+RAISED = []     # exceptions raised by the library during recorded executions
 
 
 def random_executions(gs, variant, dim, rng, n_exec, n_ops):
@@ -316,35 +347,39 @@ def random_executions(gs, variant, dim, rng, n_exec, n_ops):
             events.append({"name": "Init", "cfg": dict(cfg), "seed": seed})
             have_pos = False
             for _i in range(n_ops):
-                k = rng.choice(["Call", "Call", "Call", "SetPos", "SetCondition", "ChangeModel", "ChangeMean", "KrigeCall", "DeleteFields"])
-                if k == "Call":
-                    p = rng.choice([KEEP, 1, 2, 3]) if have_pos else rng.choice([1, 2, 3])
-                    op = {"name": "Call", "p": p, "s": rng.choice([KEEP, 1, 2]), "st": rng.random() < 0.75, "kst": rng.random() < 0.75}
-                    have_pos = True
-                elif k in ("SetPos", "KrigeCall"):
-                    op = {"name": k, "p": rng.choice([1, 2, 3])}
-                    have_pos = True
-                elif k == "SetCondition":
-                    form = rng.choice(["both", "val", "pos", "none"])
-                    cp = cfg["cpos"] if form in ("val", "none") else rng.choice([1, 2])
-                    cv = cfg["cval"] if form in ("pos", "none") else rng.choice([1, 2])
-                    op = {"name": k, "cp": cp, "cv": cv, "form": form, "refresh": cp == cfg["cpos"] and cv == cfg["cval"]}
-                    cfg["cpos"], cfg["cval"] = cp, cv
-                elif k == "ChangeModel":
-                    m = rng.choice([x for x in (1, 2, 3) if x != cfg["model"]])
-                    op = {"name": k, "m": m, "how": rng.choice(["inplace", "assign"])}
-                    cfg["model"] = m
-                elif k == "ChangeMean":
-                    v = 3 - cfg["mean"]
-                    op = {"name": k, "v": v}
-                    cfg["mean"] = v
-                else:
-                    op = {"name": k}
-                before = count[0]
-                r.apply(op, cpos_all)
-                if k == "Call":
-                    op["reuse"] = count[0] == before
-                events.append(op)
+                try:
+                    k = rng.choice(["Call", "Call", "Call", "SetPos", "SetCondition", "ChangeModel", "ChangeMean", "KrigeCall", "DeleteFields"])
+                    if k == "Call":
+                        p = rng.choice([KEEP, 1, 2, 3]) if have_pos else rng.choice([1, 2, 3])
+                        op = {"name": "Call", "p": p, "s": rng.choice([KEEP, 1, 2]), "st": rng.random() < 0.75, "kst": rng.random() < 0.75}
+                        have_pos = True
+                    elif k in ("SetPos", "KrigeCall"):
+                        op = {"name": k, "p": rng.choice([1, 2, 3])}
+                        have_pos = True
+                    elif k == "SetCondition":
+                        form = rng.choice(["both", "val", "pos", "none"])
+                        cp = cfg["cpos"] if form in ("val", "none") else rng.choice([1, 2])
+                        cv = cfg["cval"] if form in ("pos", "none") else rng.choice([1, 2])
+                        op = {"name": k, "cp": cp, "cv": cv, "form": form, "refresh": cp == cfg["cpos"] and cv == cfg["cval"]}
+                        cfg["cpos"], cfg["cval"] = cp, cv
+                    elif k == "ChangeModel":
+                        m = rng.choice([x for x in (1, 2, 3) if x != cfg["model"]])
+                        op = {"name": k, "m": m, "how": rng.choice(["inplace", "assign"])}
+                        cfg["model"] = m
+                    elif k == "ChangeMean":
+                        v = 3 - cfg["mean"]
+                        op = {"name": k, "v": v}
+                        cfg["mean"] = v
+                    else:
+                        op = {"name": k}
+                    before = count[0]
+                    r.apply(op, cpos_all)
+                    if k == "Call":
+                        op["reuse"] = count[0] == before
+                    events.append(op)
+                except Exception as e:  # noqa: BLE001 - the library refused an operation: the execution ends here
+                    RAISED.append("%s: %s" % (type(e).__name__, e))
+                    break
     finally:
         kcls.__call__ = orig
     return events
@@ -394,6 +429,8 @@ def trace_validation(rep, sc, tier, rng):
             idx = max(0, l - 2)
             rep.drift_msg("recorded CondSRF execution (%s) is not explained by the reuse decision of CondCache.tla at event #%d %s (%s)"
                           % (tag, idx, evs[idx] if idx < len(evs) else "?", r.error[1]))
+    if RAISED:
+        rep.drift_msg("%d recorded executions ended with an exception raised by the library, first: %s" % (len(RAISED), RAISED[0]))
     rep.traces += n_ex
     rep.extra["trace_validation"] = {"executions": n_ex, "events": n_ev, "rejected_batches": n_bad,
                                      "observable": "whether Krige.__call__ ran during cond_srf() (cache reused or not), through a wrapper",
@@ -453,15 +490,26 @@ def run(pid, tier, seed, replay=None):
     work = []
     combos = [("Simple", 1, 0.0, False, ()), ("Ordinary", 2, 0.0, False, ()), ("Simple", 2, 0.3, False, ()), ("Ordinary", 1, 0.0, True, ()),
               ("Simple", 2, 0.0, True, ()), ("Simple", 1, 0.0, "buffer", ()), ("Ordinary", 2, 0.0, "buffer", ()),
-              ("Simple", 1, 0.3, False, ("cond_err0",)), ("Simple", 2, 0.0, False, ("lognormal",)), ("Simple", 1, 0.0, False, ("stable",))]
+              ("Simple", 1, 0.3, False, ("cond_err0",)), ("Simple", 2, 0.0, False, ("lognormal",)), ("Simple", 1, 0.0, False, ("stable",)),
+              ("Ordinary", 2, 0.0, False, ("meshswitch",))]
     if thorough:
         combos += [("Ordinary", 1, 0.0, False, ()), ("Simple", 2, 0.0, False, ()), ("Ordinary", 2, 0.3, False, ()), ("Ordinary", 2, 0.0, True, ()),
-                   ("Ordinary", 2, 0.3, False, ("cond_err0",)), ("Ordinary", 1, 0.0, False, ("lognormal",)), ("Ordinary", 2, 0.0, False, ("stable",))]
+                   ("Ordinary", 2, 0.3, False, ("cond_err0",)), ("Ordinary", 1, 0.0, False, ("lognormal",)), ("Ordinary", 2, 0.0, False, ("stable",)),
+                   ("Simple", 2, 0.0, False, ("meshswitch",)), ("Simple", 1, 0.0, False, ("meshswitch",))]
     for ci, (variant, dim, nugget, big, opts) in enumerate(combos):
         n = 6
         sub = behs if thorough else behs[ci % 2::2]
-        if "stable" in opts:        # spectral sampling of the Stable model is slow (MCMC): fewer behaviours
-            sub = sub[:: (4 if thorough else 8)]
+        if "stable" in opts:        # spectral sampling of the Stable model is slow (MCMC): fewer behaviours,
+            # first those in which ONLY the shape parameter changes (model tokens 1 <-> 2) before a compared call
+            def shape_only(b):
+                sts = b[1]
+                for i in range(1, len(sts)):
+                    o = sts[i]["op"]
+                    if o["name"] == "ChangeModel" and {o["m"], sts[i - 1]["cfg"]["model"]} == {1, 2}:
+                        return any(x["op"]["name"] == "Call" and x["op"]["compare"] for x in sts[i + 1:])
+                return False
+            rel = [b for b in sub if shape_only(b)]
+            sub = rel[: (150 if thorough else 40)] + sub[:: (4 if thorough else 8)]
         for i in range(n):
             work.append((variant, dim, nugget, big, opts, sub[i::n]))
     import multiprocessing as mp
@@ -475,6 +523,8 @@ def run(pid, tier, seed, replay=None):
                 rep.sample(s, cap=4)
             for key, what, rp in o["violations"]:
                 rep.violation(key, what, rp)
+            for d in o.get("drift", ()):
+                rep.drift_msg(d)
     return rep.finish(
         level="model_checking",
         rule="behaviours = edge cover of TLC's state graph (<= 4 operations) + TLC -simulate histories, replayed on CondSRF(Simple/Ordinary) in dim 1 and 2; "
